@@ -65,34 +65,42 @@ func c15Answer(n int, text string, args []driver.Value) RowSet {
 	return rs
 }
 
-var c15Chains = []string{"none", "limit", "offset", "limit-offset", "limit-limit", "limit-cancel", "offset-cancel", "offset-offset", "limit-zero", "limit-then-zero", "offset-limit-offset", "order3-nested-finders"}
+var c15Chains = []string{"none", "limit", "offset", "limit-offset", "limit-limit", "limit-cancel", "offset-cancel", "offset-offset", "limit-zero", "limit-then-zero", "offset-limit-offset", "order3-nested-finders", "distinct", "select-columns"}
 
-func c15Chain(db *gorm.DB, kind string, n int) (*gorm.DB, string) {
-	lim := func(tag string) int { return verifrt.Intn(tag, 1, n+2) }
-	off := func(tag string) int { return verifrt.Intn(tag, 0, n+1) }
+type c15Vals struct{ l1, l2, o1, o2 int }
+
+func c15Draw(n int) c15Vals {
+	return c15Vals{l1: verifrt.Intn("l1", 1, n+2), l2: verifrt.Intn("l2", 1, n+2), o1: verifrt.Intn("o1", 0, n+1), o2: verifrt.Intn("o2", 0, n+1)}
+}
+
+func c15Chain(db *gorm.DB, kind string, v c15Vals) (*gorm.DB, string) {
 	switch kind {
 	case "limit":
-		return db.Limit(lim("l1")), kind
+		return db.Limit(v.l1), kind
 	case "offset":
-		return db.Offset(off("o1")), kind
+		return db.Offset(v.o1), kind
 	case "limit-offset":
-		return db.Limit(lim("l1")).Offset(off("o1")), kind
+		return db.Limit(v.l1).Offset(v.o1), kind
 	case "limit-limit":
-		return db.Limit(lim("l1")).Limit(lim("l2")), kind
+		return db.Limit(v.l1).Limit(v.l2), kind
 	case "limit-cancel":
-		return db.Limit(lim("l1")).Limit(-1), kind
+		return db.Limit(v.l1).Limit(-1), kind
 	case "offset-cancel":
-		return db.Offset(off("o1")).Offset(-1), kind
+		return db.Offset(v.o1).Offset(-1), kind
 	case "offset-offset":
-		return db.Offset(off("o1")).Offset(off("o2")), kind
+		return db.Offset(v.o1).Offset(v.o2), kind
 	case "limit-zero":
 		return db.Limit(0), kind
 	case "limit-then-zero":
-		return db.Limit(lim("l1")).Limit(0), kind
+		return db.Limit(v.l1).Limit(0), kind
 	case "order3-nested-finders":
 		return db.Order("id").Order("id").Order("id"), kind
+	case "distinct":
+		return db.Distinct("id", "name", "age", "score"), kind
+	case "select-columns":
+		return db.Select("id", "name", "age", "score"), kind
 	case "offset-limit-offset":
-		return db.Offset(off("o1")).Limit(lim("l1")).Offset(off("o2")), kind
+		return db.Offset(v.o1).Limit(v.l1).Offset(v.o2), kind
 	}
 	return db, kind
 }
@@ -106,13 +114,22 @@ func H_C15_Batches(shape int) {
 	s := NewStore()
 	s.OnQuery = func(text string, args []driver.Value) RowSet { return c15Answer(n, text, args) }
 	db := openReal(stubDialector{}, s, nil)
-	chain, _ := c15Chain(db.Model(&Item{}), kind, n)
+	vals := c15Draw(n)
+	// the chain is built twice: once executed directly by Find, once reused by
+	// FindInBatches (and, in one shape, by other finishers inside the callback)
+	direct, _ := c15Chain(db.Model(&Item{}), kind, vals)
+	chain, _ := c15Chain(db.Model(&Item{}), kind, vals)
 	chain = chain.Session(&gorm.Session{})
 	bs := verifrt.Intn("batch", 1, n+1)
 	// what Find returns for the same chain on the same stub
 	var all []Item
-	fres := chain.Find(&all)
+	fres := direct.Find(&all)
 	verifrt.Assert(fres.Error == nil, "C15.find-error")
+	findText := ""
+	if len(s.Log) > 0 {
+		findText = s.Log[0].Text
+	}
+	nFind := len(s.Log)
 	var got []uint
 	var rows []Item
 	calls := 0
@@ -150,6 +167,21 @@ func H_C15_Batches(shape int) {
 	}
 	verifrt.Assert(res.RowsAffected == int64(len(got)), "C15.rows-affected")
 	verifrt.Assert(s.OpenRows == 0, "C15.rows-not-closed")
+	// every batch reads what Find reads: the same SELECT ... FROM part (DISTINCT, columns, table)
+	head := findText
+	for _, end := range []string{" WHERE ", " ORDER BY ", " LIMIT ", " OFFSET "} {
+		if j := indexStr(head, end); j >= 0 {
+			head = head[:j]
+		}
+	}
+	for len(head) > 0 && head[len(head)-1] == ' ' {
+		head = head[:len(head)-1]
+	}
+	for _, e := range s.Log[nFind:] {
+		if e.Kind == "QUERY" && kind != "order3-nested-finders" {
+			verifrt.Assert(hasPrefix(e.Text, head+" ") || e.Text == head, "C15.batch-statement-shape")
+		}
+	}
 }
 
 // ---- Limit/Offset merge rules on the emitted statement
@@ -160,7 +192,7 @@ func H_C15_LimitMerge(shape int) {
 	kind := c15Chains[shape]
 	verifrt.Tag(kind)
 	db := openDry(stubDialector{})
-	chain, _ := c15Chain(db.Model(&Item{}), kind, 5)
+	chain, _ := c15Chain(db.Model(&Item{}), kind, c15Draw(5))
 	var out []Item
 	stmt := chain.Find(&out).Statement
 	sql := stmt.SQL.String()
@@ -183,7 +215,7 @@ func H_C15_LimitMerge(shape int) {
 
 // ---- single-record finders, Count, RowsAffected, ErrRecordNotFound
 
-var c15Finders = []string{"first", "take", "last", "first-scopes-session", "take-scopes-withcontext", "last-scopes-debug", "first-where", "find", "find-map", "scan", "pluck", "count", "rows-scanrows", "first-map", "take-slice"}
+var c15Finders = []string{"first", "take", "last", "first-scopes-session", "take-scopes-withcontext", "last-scopes-debug", "first-where", "find", "find-map", "scan", "pluck", "count", "rows-scanrows", "first-map", "take-slice", "find-broken-rows", "find-map-broken-rows", "pluck-broken-rows", "batches-broken-rows"}
 
 func N_C15_Finders(tier int) int { return len(c15Finders) }
 
@@ -251,6 +283,31 @@ func H_C15_Finders(shape int) {
 		var c int64
 		res = db.Count(&c)
 		verifrt.Assert(c == int64(n), "C15.count")
+	case "find-broken-rows", "find-map-broken-rows", "pluck-broken-rows", "batches-broken-rows":
+		// the result set of three rows fails after a symbolic number of rows were delivered
+		k := verifrt.Concretize(verifrt.Intn("break_after", 1, 2), 1, 2)
+		s.OnQuery = func(text string, args []driver.Value) RowSet {
+			rs := c15Answer(3, text, args)
+			rs.BreakAfter = k
+			return rs
+		}
+		switch kind {
+		case "find-broken-rows":
+			var sl []Item
+			res = db.Find(&sl)
+		case "find-map-broken-rows":
+			var sl []map[string]interface{}
+			res = db.Find(&sl)
+		case "pluck-broken-rows":
+			var ids []int64
+			res = db.Pluck("id", &ids)
+		case "batches-broken-rows":
+			var sl []Item
+			res = db.FindInBatches(&sl, 3, func(tx *gorm.DB, batch int) error { return nil })
+		}
+		// a read that lost rows reports it
+		verifrt.Assert(errors.Is(res.Error, errRowsBroken), "C15.broken-result-set-not-reported")
+		return
 	case "rows-scanrows":
 		rs, err := db.Rows()
 		verifrt.Assert(err == nil, "C15.rows-error")
@@ -292,7 +349,7 @@ func H_C15_Finders(shape int) {
 
 // ---- the key cursor of later batches guards every disjunct of the user's condition
 
-var c15CursorChains = []string{"where", "where-or", "or-leading", "where-not", "where-or-raw", "group"}
+var c15CursorChains = []string{"where", "where-or", "or-leading", "where-not", "where-or-raw", "group", "where-or-limit", "where-or-offset", "where-or-limit-offset"}
 
 func N_C15_BatchCursor(tier int) int { return len(c15CursorChains) }
 
@@ -325,6 +382,12 @@ func H_C15_BatchCursor(shape int) {
 		db = db.Where("age > ? OR age < ?", x, y)
 	case "group":
 		db = db.Where(base.Where("age > ?", x).Or("age < ?", y))
+	case "where-or-limit":
+		db = db.Where("age > ?", x).Or("age < ?", y).Limit(3)
+	case "where-or-offset":
+		db = db.Where("age > ?", x).Or("age < ?", y).Offset(0).Limit(3)
+	case "where-or-limit-offset":
+		db = db.Limit(3).Where("age > ?", x).Or("age < ?", y)
 	}
 	var rows []Item
 	res := db.FindInBatches(&rows, 1, func(tx *gorm.DB, batch int) error { return nil })
